@@ -376,6 +376,15 @@ func (e *seqEngine) eval(v ssa.Value, p *pathCtx) seqVal {
 		if x.Low == nil && x.High == nil {
 			return inner
 		}
+		// x[:len(x):len(x)] — the same elements with the capacity cut down to the length (an append onto it always
+		// reallocates)
+		isLenOf := func(v, of ssa.Value) bool {
+			c, ok := v.(*ssa.Call)
+			return ok && isBuiltin(c, "len") && canon(c.Call.Args[0]) == canon(of)
+		}
+		if x.Low == nil && x.High != nil && isLenOf(x.High, x.X) && (x.Max == nil || isLenOf(x.Max, x.X)) {
+			return inner
+		}
 		return seqVal{Unknown: "re-slice with non-constant bounds"}
 	case *ssa.Call:
 		if isBuiltin(x, "append") {
